@@ -399,8 +399,60 @@ def compiled_jobs(tier, sd):
     jobs.append({"id": "d-split", "family": "directed:split(W,C) -> padded kernels", "net": n.desc(outs), "opts": {"accel": "ethos-u55-128"}})
     jobs += corpus.all_singles(sd)
     jobs += corpus.draw(30 if tier == "quick" else 1000, sd, families=COMPILED_FAMILIES, dedicated_bias=0.5)
+    jobs = sweep_jobs(tier, sd) + jobs            # the big ones first: they bound the wall time of the background thread
     for n, j in enumerate(jobs):
         j["id"] = "c%d" % n
+    return jobs
+
+
+def sweep_jobs(tier, sd):
+    """Scheduler-level families that only show in real compilations: deep chains of 3x3 convolutions (optionally with a x2
+    nearest-neighbour resize in the middle) on large feature maps, compiled for Performance with the arena cache swept
+    between the size of one feature map and the unstriped peak, so that optimize_sub_schedule() proposes several stripings
+    of the same cascade (growing stripes, rolling buffers re-derived per proposal, even-stripe rule for upscaling)."""
+    from .. import netgen, vela_run
+    rng = random.Random(sd * 7919 + 17)
+    nets = 4 if tier == "quick" else 60
+    per_net = 4 if tier == "quick" else 9
+    jobs = []
+    for ni in range(nets):
+        kind = ("chain", "nearest")[ni % 2]
+        if kind == "chain":
+            h, w = rng.choice([(96, 32), (64, 64), (128, 48), (80, 40), (112, 32), (64, 96), (128, 128)][:5 if tier == "quick" else 7])
+        else:
+            h, w = rng.choice([(32, 32), (48, 24), (40, 40), (24, 64), (64, 32)])
+        c0 = rng.choice([8, 16])
+        depth = rng.randint(3, 5) if kind == "chain" else rng.randint(2, 3)
+        chans = [rng.choice([16, 24, 32, 48, 64]) for _ in range(depth - 1)] + [rng.choice([8, 16])]
+        n = netgen.Net(rng.randrange(1 << 20))
+        x = n.fm("in", [1, h, w, c0], is_input=True)
+        fms = [h * w * c0]
+        hh, ww = h, w
+        y = x
+        if kind == "nearest":
+            c1 = rng.choice([24, 32, 48])
+            y = n.conv(y, c1, k=3, pad="SAME")
+            fms.append(hh * ww * c1)
+            y = n.resize(y, "RESIZE_NEAREST_NEIGHBOR", 2)
+            hh, ww = 2 * hh, 2 * ww
+            fms.append(hh * ww * c1)
+        for oc in chans:
+            k = rng.choice([3, 3, 3, 5]) if tier != "quick" else 3
+            y = n.conv(y, oc, k=k, pad="SAME")
+            fms.append(hh * ww * oc)
+        net = n.desc([y])
+        lo = max(min(fms[1:-1] or fms), 20000)
+        hi = max(a + b for a, b in zip(fms, fms[1:]))
+        for ai in range(per_net):
+            arena = int(lo + (hi - lo) * (ai + rng.random()) / per_net)
+            accel = rng.choice(["ethos-u55-128", "ethos-u55-256", "ethos-u65-256", "ethos-u55-64"])
+            opts = {"accel": accel, "optimise": "Performance", "arena": arena}
+            r = rng.random()
+            if "u65" in accel and r < 0.6:
+                opts.update(config=vela_run.ARM_INI, system_config="Ethos_U65_High_End", memory_mode="Dedicated_Sram")
+            elif "u55" in accel and r < 0.4:
+                opts.update(config=vela_run.ARM_INI, system_config="Ethos_U55_High_End_Embedded", memory_mode="Shared_Sram")
+            jobs.append({"id": "w%d_%d" % (ni, ai), "family": "sweep:%s:%dx%dx%d:d%d" % (kind, h, w, c0, depth), "net": net, "opts": opts})
     return jobs
 
 
